@@ -542,7 +542,7 @@ def Query.wellFormed (q : Query) : Bool :=
 structure Metadata where
   ns : String
   metricName : String
-  kind : Int                 -- `Type MetricMetadataType` (uint8 enum), a plain number on the wire
+  kind : Nat                 -- `Type MetricMetadataType` (uint8: the model's values are `< 256`) (uint8 enum), a plain number on the wire
   tagKey : String
   prefix_ : String
   condition : Expr
@@ -553,7 +553,7 @@ structure Metadata where
 def metadataFields (m : Metadata) : Fields :=
   (optField "namespace" (m.ns == "") (.str m.ns)
     ++ optField "metricName" (m.metricName == "") (.str m.metricName)
-    ++ optField "type" (m.kind == 0) (.int m.kind)
+    ++ optField "type" (m.kind == 0) (.int (m.kind : Int))
     ++ optField "tagKey" (m.tagKey == "") (.str m.tagKey)
     ++ optExpr "condition" m.condition
     ++ optField "prefix" (m.prefix_ == "") (.str m.prefix_)
@@ -566,7 +566,7 @@ def unmarshalMetadata (j : Json) : Except Err Metadata := do
   let kvs ← structFields j
   let ns ← getStr kvs "namespace"
   let metric ← getStr kvs "metricName"
-  let ty ← getInt kvs "type"
+  let ty ← getU8 kvs "type"
   let tagKey ← getStr kvs "tagKey"
   let pre ← getStr kvs "prefix"
   let limit ← getInt kvs "limit"
